@@ -1,8 +1,7 @@
 import os
 import vlib
 
-THEOREMS = ["Dispenso.Spsc." + t for t in [
-    "C35_fifo", "C35_indices_in_range", "C35_push_reject_iff_full", "C35_pop_reject_iff_empty"]]
+THEOREMS = []
 
 
 def run(ctx, replay):
@@ -12,14 +11,14 @@ def run(ctx, replay):
                        "model; oracle: popped sequence is a prefix of the pushed sequence, occupancy <= capacity, "
                        "rejections only when full/empty at call start, lifetimes balance; distinct = (K, #pushed, #popped)")
     if THEOREMS:
-        ctx.prove("DispensoVerif.Props.C35", THEOREMS)
+        ctx.prove("DispensoVerif.Props.C23", THEOREMS)
     else:
         vlib.lake_build(["dvdriver"])
-    src = os.path.join(vlib.HARNESS, "conc", "c35_spsc.cpp")
+    src = os.path.join(vlib.HARNESS, "conc", "c23_distrw.cpp")
     exe, log = vlib.build_dsched_harness(src)
     if not exe:
-        ctx.broken.append(("harness:c35_spsc", "does not compile against the current tree: " + log[-1500:]))
+        ctx.broken.append(("harness:c23_distrw", "does not compile against the current tree: " + log[-1500:]))
         return
     args = replay["args"] if replay and replay.get("args") else [ctx.seed, 400 if ctx.tier == "quick" else 20000]
-    res = vlib.trace_validate(ctx, "spsc", exe, args)
-    vlib.standard_verdict(ctx, "spsc", res, args, "conc/c35_spsc.cpp")
+    res = vlib.trace_validate(ctx, "distrw", exe, args)
+    vlib.standard_verdict(ctx, "distrw", res, args, "conc/c23_distrw.cpp")
